@@ -28,8 +28,11 @@ def slug_of_class(name):
 def task_local_name(key, t, modname_last=None):
     name = t['name'] if t.get('name') is not None else slug_of_class(key)
     group = t.get('group') or ''
-    if t.get('module_group'):
-        group = modname_last
+    mg = t.get('module_group')
+    if mg in (True, 'module'):
+        group = modname_last.split('.')[-1]
+    elif mg == 'double':
+        group = t.get('group') or ':'.join(modname_last.split('.')[-2:])
     return f'{group}:{name}' if group else name
 
 
